@@ -10,7 +10,8 @@ SPEC = {'level': 'exploration',
                  'holds 2 entries); all verdicts, tips and pool contents must agree line by line; the history generator is a deterministic function of the bytes and node state'],
  'stages': [gen('vh_c13', 'c13_checkinputs', 12000, 200000, min_cases_quick=4000,
                 floors={'accept-then-reject-same-wtxid': 0.35, 'expected-script-cache-hit': 0.3, 'same-txid-different-witness-evaluated': 0.3, 'twin-accepted-and-rejected': 0.15,
-                        'script-cache-hit-observed': 0.1, 'variant:bad-sig': 0.4, 'variant:lax-der': 0.15, 'variant:multisig-repeated-sig': 0.02, 'some-rejected': 0.9},
+                        'script-cache-hit-observed': 0.1, 'variant:bad-sig': 0.4, 'variant:lax-der': 0.15, 'variant:multisig-repeated-sig': 0.02, 'some-rejected': 0.9, 'tx:same-sig-vs-sibling-keys': 0.3, 'sibling-key:negated-point': 0.1,
+                        'sibling-key:off-curve': 0.15, 'sibling-key:hybrid': 0.1},
                 rule='40-160 CheckInputScripts calls per case on one ValidationCache vs cache-free evaluation; non-trivial = a wtxid accepted then rejected under another flag set and '
                      'an expected script-cache hit'),
             gen('vh_c13', 'c13_twin', 256, 4000, min_cases_quick=100,
